@@ -316,22 +316,34 @@ func VerifC13HaltAfterWriter() {
 // returns, the transaction is applied, and the node is no longer writable.
 func VerifC13ExpiredHaltStream() {
 	ctx := context.Background()
-	w, img0 := verifC01Replica(1, rt.Choose("wal.mode", 2) == 1)
+	n0 := 1 + rt.Choose("n0", 2)
+	w, img0 := verifC01Replica(n0, rt.Choose("wal.mode", 2) == 1)
 	db := w.db
 	pos0 := db.Pos()
 	db.remoteHaltLock.Store(&HaltLock{ID: 5, Pos: pos0})
 	rt.Check(db.Writeable(), "harness: holder of the remote halt lock may write")
+	if n0 == 2 && db.Mode() != DBModeWAL && rt.Choose("abandoned.local.tx", 2) == 1 {
+		// the holder was in the middle of a local transaction when its lock lapsed: page 2 is dirty in the
+		// database file and its original content sits in a hot journal; the connection is gone (no locks)
+		nonce := rt.U32("nonce")
+		j := append(verifJournalHeader(1, nonce, uint32(n0)), verifJournalRecord(2, img0[1], nonce)...)
+		must(os.WriteFile(db.JournalPath(), j, 0o666))
+		must(os.WriteFile(db.DatabasePath(), verifJoin([][]byte{img0[0], rt.Bytes("abandoned", verifP)}), 0o666))
+	}
 	p := rt.Bytes("primary.tx", verifP)
-	verifHeaderPage(p, 1, db.Mode() == DBModeWAL)
-	want := [][]byte{p}
-	hdr := ltx.Header{PageSize: verifP, Commit: 1, MinTXID: pos0.TXID + 1, MaxTXID: pos0.TXID + 1, PreApplyChecksum: pos0.PostApplyChecksum, NodeID: 99}
+	verifHeaderPage(p, uint32(n0), db.Mode() == DBModeWAL)
+	want := make([][]byte, n0)
+	copy(want, img0)
+	want[0] = p
+	hdr := ltx.Header{PageSize: verifP, Commit: uint32(n0), MinTXID: pos0.TXID + 1, MaxTXID: pos0.TXID + 1, PreApplyChecksum: pos0.PostApplyChecksum, NodeID: 99}
 	rt.Assume(w.store.ID() != 99)
-	file := verifEncodeLTX(hdr, []uint32{1}, want, verifSpecChecksum(want))
+	file := verifEncodeLTX(hdr, []uint32{1}, [][]byte{p}, verifSpecChecksum(want))
 	var err error
 	rt.NoHang(2000, func() {
 		err = w.store.processLTXStreamFrame(ctx, &LTXStreamFrame{Name: "db"}, bytes.NewReader(file))
 	})
-	rt.Check(err == nil, "the primary's transaction is applied by the former halt-lock holder")
+	rt.Check(err == nil && len(w.exits) == 0, "the primary's transaction is applied by the former halt-lock holder (no error, no fatal exit)")
+	rt.Check(verifGone(db.JournalPath()), "an abandoned local transaction is rolled back before the primary's transaction is applied")
 	rt.Check(db.RemoteHaltLock() == nil && !db.Writeable(), "the stale halt lock is dropped: the former holder can no longer write or publish")
 	rt.Check(db.Pos() == ltx.Pos{TXID: pos0.TXID + 1, PostApplyChecksum: verifSpecChecksum(want)}, "C01: the replica reaches the primary's position")
 	verifC01CheckImage(w, want, "C01: image is the primary's")
